@@ -1,5 +1,5 @@
 """Queries over SYM terms: dependency leaves, clear-text (raw) atoms, accumulator traces, event search."""
-from .terms import PHI, Term, is_t, mk, show, subterms
+from .terms import FIRST_CELLS, PHI, Term, is_t, mk, show, subterms
 
 # ops that only re-present their operand (encodings, views, copies, projections): never one-way
 # (everything that is not in ONEWAY is traversed by raw())
@@ -18,6 +18,9 @@ def path_of(t):
             parts.append(str(t.args[1]))
             t = t.args[0]
         elif op == "payload":
+            if t.args[0].op == "phi" and t.args[0].id in FIRST_CELLS and t.args[1:] == (1, 0):
+                t = FIRST_CELLS[t.args[0].id]        # payload of a set-once "first element" cell
+                continue
             parts.append("v%d.%d" % (t.args[1], t.args[2]))
             t = t.args[0]
         elif op in ("deref", "refv", "conv"):
@@ -45,6 +48,11 @@ def path_of(t):
         else:
             return None
     return ".".join(reversed(parts))
+
+
+def origin_block(b):
+    """CFG block of an alternative's origin (model-built alternatives carry a synthetic origin ("m", block, idx))"""
+    return b[1] if isinstance(b, tuple) and b and b[0] == "m" else b
 
 
 def raw_children(x):
@@ -80,6 +88,9 @@ def atoms(t, stop_ops=(), seen=None):
         p = path_of(x)
         if p is not None:
             out.add(("param", p))
+            continue
+        if op == "payload" and x.args[0].op == "phi" and x.args[0].id in FIRST_CELLS and x.args[1:] == (1, 0):
+            stack.append(FIRST_CELLS[x.args[0].id])
             continue
         if op == "len" and path_of(x.args[0]) is not None:
             out.add(("len", path_of(x.args[0])))
@@ -348,7 +359,7 @@ def calls(eng, callee_sub=None, in_fn=None, frame_prefix=None):
             continue
         if callee_sub is not None and callee_sub not in (ev.get("callee") or "") and callee_sub not in (ev.get("dname") or ""):
             continue
-        if in_fn is not None and ev["fn"] != in_fn:
+        if in_fn is not None and ev.get("home_fn", ev["fn"]) != in_fn:      # new helpers are part of their caller
             continue
         if frame_prefix is not None and not ev["frame"].startswith(frame_prefix):
             continue
